@@ -480,9 +480,9 @@ def site_of(part, name, kw):
             return f"IndividualGibbsSampler.sample -> state[{name}]"
         return f"IndividualGibbsSampler.sample[{base}]"
     if part == "mcmc":
-        return f"personalize({kw.get('algo')})[{name}]"
+        return f"personalize({kw.get('algo')})"
     if part == "scipy":
-        return f"personalize(scipy_minimize)[{name}]"
+        return "personalize(scipy_minimize)"
     return f"{part}[{name}]"
 
 
@@ -514,19 +514,20 @@ def close(a, b, tol):
 
 
 def compare_rows(part, kw, relation, i, mine, theirs, exact, n_obs, n_dims, u_list=None, opt_std=None):
-    """Returns (problems [(signature, message)], n_rounded, skipped)."""
+    """Returns (problems [(signature, message)], n_rounded, skipped).  `relation` = "mismatch kind|input feature"."""
     probs, rounded = [], 0
+    if "|" not in relation:
+        relation += "|"
     if set(mine) != set(theirs):
-        return [(f"{site_of(part, '*', kw)}|different set of outputs|{relation}", f"{sorted(mine)} vs {sorted(theirs)}")], 0, False
+        return [(f"{site_of(part, '*', kw)}|different set of outputs|{relation.split('|')[0]}", f"{sorted(mine)} vs {sorted(theirs)}")], 0, False
     u_of = dict(u_list or [])
     skipped = False
-    diverged = False
     for name in mine:  # insertion order = chronological order for the sampler
         a, b = mine[name], theirs[name]
         if same_tensor(a, b):
             continue
         if exact:
-            probs.append((f"{site_of(part, name, kw)}|{relation}|", f"individual '{i}' {name}: {a.tolist()!r} vs {b.tolist()!r}"))
+            probs.append((f"{site_of(part, name, kw)}|{relation}", f"individual '{i}' {name}: {a.tolist()!r} vs {b.tolist()!r}"))
             break  # later outputs of a chain follow from the first difference
         base = name.split("[")[0]
         if base == "decision":
@@ -537,7 +538,7 @@ def compare_rows(part, kw, relation, i, mine, theirs, exact, n_obs, n_dims, u_li
             if u is not None and min(al, be) * (1 - 1e-4) <= u <= max(al, be) * (1 + 1e-4):
                 skipped = True
                 break
-            probs.append((f"{site_of(part, name, kw)}|{relation}|", f"individual '{i}' {name}: {a.tolist()} vs {b.tolist()} (alpha {al!r} vs {be!r}, u={u!r})"))
+            probs.append((f"{site_of(part, name, kw)}|{relation}", f"individual '{i}' {name}: {a.tolist()} vs {b.tolist()} (alpha {al!r} vs {be!r}, u={u!r})"))
             break
         if base == "alpha":
             # alpha = exp(-D): an absolute error of D of tol gives a relative error tol
@@ -555,8 +556,7 @@ def compare_rows(part, kw, relation, i, mine, theirs, exact, n_obs, n_dims, u_li
         if ok:
             rounded += 1
             continue
-        probs.append((f"{site_of(part, name, kw)}|{relation}|", f"individual '{i}' {name}: {a.tolist()!r} vs {b.tolist()!r}"))
-        diverged = True
+        probs.append((f"{site_of(part, name, kw)}|{relation}", f"individual '{i}' {name}: {a.tolist()!r} vs {b.tolist()!r}"))
         break
     return probs, rounded, skipped
 
@@ -628,11 +628,11 @@ def check_case(runner, ids, mods):
             probs.extend(p)
             info["rounded"] += r
             info["skipped"] += int(s)
-        info["relations"].append(relation.split(" (")[0])
+        info["relations"].append(relation.split("|")[0])
 
     if mods:
         kind = MOD_LABEL[sorted(mods.values())[0]]
-        versus(ids, {}, f"changes when only OTHER individuals are modified ({kind})", [i for i in ids if i not in mods], True)
+        versus(ids, {}, f"changes when only OTHER individuals are modified|{kind}", [i for i in ids if i not in mods], True)
     else:
         if list(ids) != sorted(ids):
             if part == "scipy" and kw.get("draws") == "seeded":
